@@ -38,7 +38,13 @@ RULE = ("segment tables of 0..25 rows (classes autosome / X / Y / PAR-X / PAR-Y 
         "-y / --male-reference / --haploid-x-reference, --ploidy 2 and --show ploidy left to their defaults, the genome "
         "name in any case, -o or standard output, a second segment file before / after on export bed, -i alone / with "
         "--label-genes, --label-genes, vcf --cnr; every command-line table carries an X and a Y segment neutral for "
-        "exactly the case's sample sex. non-trivial = non-empty input; distinct by hash of the case")
+        "exactly the case's sample sex.  COMMAND-LINE GLUE handed to the model UNRESOLVED (ops cmd_export_bed / cmd_export_vcf, "
+        "Model/ExportExt.lean; 60 + 30 cases in the quick tier): 1..3 segment files per `export bed` (each with its own "
+        "columns and its own apparent sex), the sample sex left out or in each of the eight accepted spellings under each "
+        "option name -- in 40 % of the files the table looks like the OTHER sex, so the stated one must win, and with the "
+        "sex left out the files may disagree, so each must be treated with the sex inferred from IT --, -i LABEL / -i '' / "
+        "--label-genes / both / neither, --show in its three values or left out, --ploidy left out; the model is told "
+        "only what guess_xx infers per file. non-trivial = non-empty input; distinct by hash of the case")
 EXHAUSTIVE = {"quick": False, "thorough": False}
 ASSUMPTIONS = [
     "ratio space: the model receives the exact value of the double 2**log2; r*t in floats is covered by the knife-edge "
@@ -49,11 +55,16 @@ ASSUMPTIONS = [
     "negative counts yield no record at all -- run as a malformed stream, model mirrors it, spec not applied",
     "command line with the sample sex left out: the model is given the sex that guess_xx infers from the table as "
     "read (C15's subject); the tie then covers verify_sample_sex and the option plumbing",
+    "source tie (Generated/ExprsExport.lean): segments2vcf is read WITHOUT the confidence-limit columns (`\"ci_left\" in "
+    "segments` resolved to False); call.absolute_expect / absolute_clonal / absolute_dataframe and guess_xx are typed "
+    "parameters (C01's / C15's subjects) whose argument lists are checked textually; Python's float formatting inside the "
+    "INFO f-strings is a parameter",
     "vcf with confidence limits (cnarr / --cnr, or ci_left + ci_right columns): each record additionally carries "
     "CIPOS and CIEND after the seven modelled INFO keys; the adapter checks that they are there and drops them, their "
     "values are outside the property's text and the model",
 ]
-TRUSTED_EXTRA = ["pandas boolean-mask selection, Series.replace, concat, itertuples, to_csv as modelled in Model/Export.lean",
+TRUSTED_EXTRA = ["harness/exprtrans.py class RowFn: the ROW-wise reading of column-wise pandas code (rules at the top of the file)",
+                 "pandas boolean-mask selection, Series.replace, concat, itertuples, to_csv as modelled in Model/Export.lean",
                  "harness parsing of the VCF / BED / SEG / TSV text into fields (split on tab, ';', '=', ':')",
                  "tabio.read (tab format) on sorted finite input is the identity (checked per case by the adapter)",
                  "argparse: an option string reaches the command function as the attribute the parser declares"]
@@ -415,6 +426,49 @@ def _nexuscase(rng, via=None):
     return {"op": "export_nexus_basic", "tag": (via + "-" if via else "") + "nexus" + rep, "in": i}
 
 
+def _cmdcase(rng, op, turn):
+    """`cnvkit.py export bed FILE... | export vcf FILE` with the options handed to the MODEL as argparse receives them:
+    the sex as spelled (or left out), -i, --label-genes, --show; per file the model is told only what `guess_xx` infers
+    from it.  `turn` walks through the cells so that each is reached whatever the seed."""
+    ploidy = 2 if turn % 4 == 0 else rng.randint(1, 6)
+    hapx = rng.random() < 0.5
+    par = rng.choice([None, None, "grch37", "grch38"])
+    # the sex on the command line: every accepted spelling in turn, or nothing
+    spell = [None, "m", "f", "y", "x", None, "male", "female", "Male", "Female"][turn % 10]
+    nfiles = 1 if op == "cmd_export_vcf" else [1, 2, 3, 2][turn % 4]
+    files = []
+    style = rng.choice(["chr", "plain"])
+    for k in range(nfiles):
+        # the rows are neutral on X / Y for one sex; with the sex left out the files may disagree (each file is
+        # treated with the sex inferred from IT)
+        fem = (spell in ("f", "x", "female", "Female")) if spell else rng.random() < 0.5
+        if spell and rng.random() < 0.4:
+            fem = not fem   # the table looks like the other sex: the stated one must win
+        has_cn = rng.random() < 0.5
+        rows = _seg_rows(rng, rng.randint(1, 8), ploidy, hapx, fem, style, par, has_cn, "cli", sentinels=True)
+        files.append({"seg_id": f"S{k}{rng.choice(['', 'a', '_t'])}", "has_cn": has_cn,
+                      "has_probes": True if op == "cmd_export_vcf" else rng.random() >= 0.15,
+                      "rows": [_enc_seg(r) for r in rows], "log2_f": [r[4] for r in rows]})
+    i = {"ploidy": ploidy, "hapX": hapx, "par": par, "sex": spell,
+         "sample_id": [None, "lab", None, "tumor-1", None, ""][turn % 6] if op == "cmd_export_bed" else [None, "TUMOR"][turn % 2]}
+    opts = {"sex_flag": ["-x", "--sample-sex", "-g", "--gender"][(turn // 10) % 4],
+            "hapx_flag": rng.choice(["-y", "--male-reference", "--haploid-x-reference"]),
+            "implicit": turn % 5 != 4, "stdout": turn % 4 == 1}
+    if par:
+        i["par_f"] = rng.choice(PAR_SPELL[par])
+    if op == "cmd_export_bed":
+        i["label_genes"] = turn % 3 == 1
+        i["show"] = ["ploidy", "variant", "variant", "all"][(turn // 2) % 4]
+        i["files"] = files
+    else:
+        i["file"] = files[0]
+    i["via"] = "argv"
+    i["cli_opts"] = opts
+    tag = f"{op[4:]}-{i.get('show', 'vcf')}-{nfiles}files-sex:{spell or 'inferred'}" + \
+          ("-i" if i["sample_id"] else "") + ("-genes" if i.get("label_genes") else "")
+    return {"op": op, "tag": tag, "in": i}
+
+
 def corpus():
     import random
     rng = random.Random(20)
@@ -503,6 +557,13 @@ def gen_cases(rng, tier):
         cases.append(_segfile_case(rng, via="argv"))
         cases.append(_tablecase(rng, via="argv"))
         cases.append(_nexuscase(rng, via="argv"))
+    # the glue of the two commands with the options handed to the model unresolved (sex spelling, -i, --label-genes,
+    # several files): Model/ExportExt.lean
+    b = {"quick": 60, "thorough": 300, "search": 60}[tier]
+    for t in range(b):
+        cases.append(_cmdcase(rng, "cmd_export_bed", t))
+        if t % 2 == 0:
+            cases.append(_cmdcase(rng, "cmd_export_vcf", t // 2))
     # ... and end to end through cnvkit.py in a subprocess (2 s each: spread over the list so that the worker
     # processes share them)
     k = {"quick": 1, "thorough": 4, "search": 0}[tier]
@@ -1029,8 +1090,52 @@ def _run_nexus(i, tmp):
     return [[_cell(t[c].iat[k]) for c in cols] for k in range(len(t))]
 
 
+def _run_cmd(i, tmp):
+    """export bed / export vcf through commands.parse_args + the command function; returns what was written and, per
+    file, the sex guess_xx infers from it as read (the model's parameter)"""
+    from cnvlib.cmdutil import read_cna
+    opt = i["cli_opts"]
+    files = i["files"] if "files" in i else [i["file"]]
+    paths = []
+    for f in files:
+        path = os.path.join(tmp, f["seg_id"] + ".cns")
+        _write_segfile(path, f["rows"], f["log2_f"], f["has_cn"], f["has_probes"])
+        paths.append(path)
+    args = ["export", "bed" if "files" in i else "vcf"] + paths
+    if not (opt.get("implicit") and i["ploidy"] == 2):
+        args += ["--ploidy", str(i["ploidy"])]
+    if i["sex"] is not None:
+        args += [opt["sex_flag"], i["sex"]]
+    if i["hapX"]:
+        args.append(opt["hapx_flag"])
+    if i["par"]:
+        args += ["--diploid-parx-genome", i.get("par_f", i["par"])]
+    if i["sample_id"] is not None:
+        args += ["-i", i["sample_id"]]
+    if "files" in i:
+        if i["label_genes"]:
+            args.append("--label-genes")
+        if not (opt.get("implicit") and i["show"] == "ploidy"):
+            args += ["--show", i["show"]]
+    r, text = _cli_text(args, tmp, i, "out.txt")
+    if r.returncode != 0:
+        raise RuntimeError("cli failed: " + r.stderr[-500:])
+    guesses = []
+    for path in paths:
+        g = read_cna(path).guess_xx(i["hapX"], i.get("par_f", i["par"]), verbose=False)
+        guesses.append(bool(g) if g is not None else False)
+    out = _parse_bed(text) if "files" in i else _parse_vcf(text)
+    return {"__cmd__": True, "guesses": guesses, "out": out}
+
+
 def run_impl(case):
     i = case["in"]
+    if case["op"] in ("cmd_export_bed", "cmd_export_vcf"):
+        tmp = tempfile.mkdtemp(dir="/var/tmp", prefix="c20-")
+        try:
+            return _run_cmd(i, tmp)
+        finally:
+            shutil.rmtree(tmp, ignore_errors=True)
     tmp = tempfile.mkdtemp(dir="/var/tmp", prefix="c20-")
     try:
         return {"export_bed": _run_bed, "export_vcf": _run_vcf, "export_seg": _run_seg,
@@ -1057,6 +1162,16 @@ def _payload(impl):
 
 def to_line(case, impl):
     line = {"op": case["op"], "in": _strip(case["in"])}
+    if case["op"] in ("cmd_export_bed", "cmd_export_vcf"):
+        if isinstance(impl, dict) and "__error__" in impl:
+            gs = None
+        else:
+            gs = impl["guesses"]
+            line["impl"] = impl["out"]
+        fl = line["in"]["files"] if "files" in line["in"] else [line["in"]["file"]]
+        for k, f in enumerate(fl):
+            f["guess"] = gs[k] if gs else False
+        return line
     if case["in"].get("via") and case["op"] == "export_bed":
         # the command line labels rows with the sample ID unless -i / --label-genes is given
         lab = case["in"]["label"]
@@ -1097,6 +1212,8 @@ def judge(case, impl, resp):
         return ["raises_" + impl["__error__"]], [], None
     if "error" in resp:
         return [], ["model error: " + resp["error"]], None
+    if op in ("cmd_export_bed", "cmd_export_vcf"):
+        return _judge_cmd(case, impl, resp)
     impl = _payload(impl)
     spec = list(resp.get("spec") or [])
     out = resp["out"]
@@ -1154,6 +1271,37 @@ def judge(case, impl, resp):
     return spec, disagree, None
 
 
+def _judge_cmd(case, impl, resp):
+    i = case["in"]
+    files = i["files"] if "files" in i else [i["file"]]
+    slacks = resp["slack"] if "files" in i else [resp["slack"]]
+    for f, sl in zip(files, slacks):
+        if not f["has_cn"] and any(Fraction(x) < Fraction(1, 10 ** 9) and not _exact_product(lg)
+                                   for x, lg in zip(sl, f["log2_f"])):
+            return [], [], "rounding boundary within 1e-9"
+    spec = list(resp.get("spec") or [])
+    out, got = resp["out"], impl["out"]
+    disagree = []
+    if case["op"] == "cmd_export_bed":
+        if out != got:
+            k = next((k for k, (a, b) in enumerate(zip(out, got)) if a != b), min(len(out), len(got)))
+            disagree.append(f"bed rows differ at {k}: model {out[k:k+1]} impl {got[k:k+1]} ({len(out)} vs {len(got)} rows; "
+                            f"sexes in force per file {resp.get('sexes')})")
+    else:
+        if out["sample_col"] != got["sample_col"]:
+            disagree.append(f"sample column: model {out['sample_col']!r} impl {got['sample_col']!r}")
+        mr, ir = out["records"], got["records"]
+        if len(mr) != len(ir):
+            disagree.append(f"record count model {len(mr)} impl {len(ir)} (sex in force: female={resp.get('female')})")
+        else:
+            for k, (a, b) in enumerate(zip(mr, ir)):
+                same = all(a[x] == b[x] for x in (0, 1, 2, 3, 4, 5, 6, 7, 8, 9, 10, 13, 14, 15))
+                if not (same and _close(b[11], a[11]) and _close(b[12], a[12])):
+                    disagree.append(f"record {k}: model {a} impl {b}")
+                    break
+    return spec, disagree, None
+
+
 def classify_reserved_sample_id(case, impl, resp):
     """a jtv/cdt input in which a sample is named like one of merge_samples' own columns"""
     return case["op"] == "export_table" and any(sm["id"] in RESERVED for sm in case["in"]["samples"])
@@ -1170,6 +1318,8 @@ def classify_bed_reference_copies(case, impl, resp):
 
 def nontrivial(case, impl, resp):
     i = case["in"]
+    if "files" in i or "file" in i:
+        return any(len(f["rows"]) > 0 for f in (i["files"] if "files" in i else [i["file"]]))
     if "rows" in i:
         return len(i["rows"]) > 0
     if "samples" in i:
@@ -1179,6 +1329,24 @@ def nontrivial(case, impl, resp):
 
 def shrink(case):
     i = case["in"]
+    if "files" in i or "file" in i:
+        files = i["files"] if "files" in i else [i["file"]]
+        cands = []
+        if len(files) > 1:
+            cands += [files[:k] + files[k + 1:] for k in range(len(files))]
+        for j, f in enumerate(files):
+            for k in range(len(f["rows"])):
+                if len(f["rows"]) > 1:
+                    g = dict(f, rows=f["rows"][:k] + f["rows"][k + 1:], log2_f=f["log2_f"][:k] + f["log2_f"][k + 1:])
+                    cands.append(files[:j] + [g] + files[j + 1:])
+        for fl in cands:
+            c = {"op": case["op"], "tag": "shrunk", "in": dict(i)}
+            if "files" in i:
+                c["in"]["files"] = fl
+            else:
+                c["in"]["file"] = fl[0]
+            yield c
+        return
     if "rows" in i:
         for k in range(len(i["rows"])):
             c = {"op": case["op"], "tag": "shrunk", "in": dict(i)}
